@@ -61,6 +61,11 @@ func RunC02(run *core.Run, backend *SQLBackend, queries []Query, b Bounds) {
 		if err != nil {
 			continue
 		}
+		q = q.withParams(m)
+		if q.Source != "enum" && countExpansions(m) >= 2 {
+			run.Add("queries_skipped_two_or_more_expansions", 1)
+			continue
+		}
 		plan, err := optimize.Optimize(m)
 		if err != nil || plan.Query == nil {
 			run.Add("queries_rejected_by_optimizer", 1)
@@ -138,7 +143,8 @@ func RunC02(run *core.Run, backend *SQLBackend, queries []Query, b Bounds) {
 			run.Add("programs_with_rewritten_cypher", 1)
 		}
 
-		d := DomainFor(q.Text, b.MaxNodes, b.MaxEdges, b.Budget)
+		d := q.domain(m, b)
+		ensureKinds(km, kindIDs, d)
 		var evals, nonEmpty, compared int64
 		outside := false
 		d.Enumerate(func(g *gm.Graph) bool {
@@ -259,6 +265,37 @@ func classifyC02(m *cypher.RegularQuery, q Query, g *gm.Graph, ref *cyref.Result
 		if len(out) > 0 {
 			return out
 		}
+	}
+	// The production (optimised) rows are what openCypher prescribes and the unoptimised baseline is not: the difference
+	// is a defect of the translation without lowerings. Two such defects are recorded, each recognised by the shape of
+	// the query; any other one is reported under its own class.
+	if ref != nil && CompareToReference(ref, cfg) == "" && CompareToReference(ref, base) != "" {
+		hasPatternPredicate, zeroLengthBeforeStep := false, false
+		cyref.WalkModel(m, func(x cypher.Expression) {
+			switch t := x.(type) {
+			case *cypher.PatternPredicate:
+				hasPatternPredicate = true
+			case *cypher.PatternPart:
+				seenZero := false
+				for _, el := range t.PatternElements {
+					if rp, ok := el.AsRelationshipPattern(); ok {
+						if seenZero {
+							zeroLengthBeforeStep = true
+						}
+						if rp.Range != nil && rp.Range.StartIndex != nil && *rp.Range.StartIndex == 0 {
+							seenZero = true
+						}
+					}
+				}
+			}
+		})
+		switch {
+		case hasPatternPredicate:
+			return []string{"unoptimised-baseline-wrong:pattern-predicate-between-bound-nodes-is-not-correlated"}
+		case zeroLengthBeforeStep:
+			return []string{"unoptimised-baseline-wrong:zero-length-expansion-followed-by-step"}
+		}
+		return []string{featureClass("unoptimised-baseline-wrong", q)}
 	}
 	return []string{featureClass("configuration-changes-result:"+config, q)}
 }
